@@ -63,16 +63,40 @@ inline Result run_in_arena(int N, unsigned long seed, int den, long maxsteps, co
 }
 
 // Forked execution of one case with a watchdog: crash / hang / std::terminate become events appended by the parent.
-template <class Fn> inline int forked_case(const char* tmpfile, FILE* out, bool& first, int watchdog_s, Fn fn) {
-    pid_t pid = fork();
-    if (pid == 0) {
+// With `chunk_var` (the address of the caller's loop variable that selects the chunk) the children are forked from a ZYGOTE - a copy of this process taken at the
+// first call that never does anything but fork - so that every chunk starts from the same memory image whichever chunks ran before it (the parent's heap changes
+// while it copies the children's output; TBB seeds RNGs from addresses).  A chunk can then be re-run alone (VERIF_ONLY) and behaves exactly as in the full run.
+template <class Fn> inline int forked_case(const char* tmpfile, FILE* out, bool& first, int watchdog_s, Fn fn, int* chunk_var = nullptr) {
+    auto child_main = [&] {
         alarm(watchdog_s);
         TR.open(tmpfile); setvbuf(TR.f, nullptr, _IOLBF, 0);
         std::set_terminate([] { TR.emit("{\"e\":\"Terminate\"}"); TR.close(); _exit(0); });
         fn();
         TR.close(); _exit(0);
+    };
+    int status = 0;
+    if (chunk_var) {
+        static int to_z[2] = {-1, -1}, from_z[2] = {-1, -1}; static pid_t zygote = -1;
+        if (zygote < 0) {
+            if (pipe(to_z) || pipe(from_z)) { perror("pipe"); exit(2); }
+            fflush(nullptr);
+            zygote = fork();
+            if (zygote == 0) {
+                close(to_z[1]); close(from_z[0]);
+                for (;;) { int v; ssize_t n = read(to_z[0], &v, sizeof v); if (n != (ssize_t)sizeof v) _exit(0);
+                    *chunk_var = v;
+                    pid_t c = fork(); if (c == 0) { close(to_z[0]); close(from_z[1]); child_main(); }
+                    int stt = 0; waitpid(c, &stt, 0); if (write(from_z[1], &stt, sizeof stt) != (ssize_t)sizeof stt) _exit(0); }
+            }
+            close(to_z[0]); close(from_z[1]);
+        }
+        int v = *chunk_var;
+        if (write(to_z[1], &v, sizeof v) != (ssize_t)sizeof v || read(from_z[0], &status, sizeof status) != (ssize_t)sizeof status) { fprintf(stderr, "zygote died\n"); exit(2); }
+    } else {
+        pid_t pid = fork();
+        if (pid == 0) child_main();
+        waitpid(pid, &status, 0);
     }
-    int status = 0; waitpid(pid, &status, 0);
     std::ifstream in(tmpfile); std::string line; bool any = false;
     while (std::getline(in, line)) { if (line.empty() || line.back() != '}') continue;   /* a killed child may leave a partial last line */
         if (!any && !first && line.find("\"Reset\"") == std::string::npos) fputs("{\"e\":\"Reset\"}\n", out); any = true; first = false; fputs(line.c_str(), out); fputc('\n', out); }
